@@ -3,6 +3,8 @@ package props
 import (
 	"errors"
 	"fmt"
+	"io"
+	"os"
 	"strings"
 
 	"github.com/robfig/soy/data"
@@ -216,6 +218,64 @@ func init() {
 			if r := check(&faultWriter{failAt: -1, capacity: len(O)}, "writer capacity = output length", false, len(O)); r != nil {
 				return *r
 			}
+			// real files as writers, and the other entry point (Tofu.Render takes plain Go data and cannot inject):
+			// /dev/full fails every write with ENOSPC, a closed file fails every write, a fresh file takes everything
+			if len(O) > 0 && i%3 == 0 {
+				viaTofu := func(w io.Writer) error {
+					armRenderBudget()
+					return tofu.Render(w, prog.Entry, goData(prog.Data))
+				}
+				entries := []struct {
+					name string
+					f    func(io.Writer) error
+				}{{"Renderer.Execute", func(w io.Writer) error { return run(w) }}}
+				if prog.IJ == nil {
+					entries = append(entries, struct {
+						name string
+						f    func(io.Writer) error
+					}{"Tofu.Render", viaTofu})
+				}
+				for _, en := range entries {
+					if full, err := os.OpenFile("/dev/full", os.O_WRONLY, 0); err == nil {
+						rerr := en.f(full)
+						full.Close()
+						ctx.Obs("renders_into_dev_full", 1)
+						if rerr == nil {
+							return fw.Result{Verdict: fw.Violated, Key: "nil-on-failed-write:os.File", Case: cd,
+								Msg: fmt.Sprintf("%s into /dev/full (every write fails with ENOSPC) returned nil for an output of %d bytes", en.name, len(O))}
+						}
+					}
+					tmp, err := os.CreateTemp("", "c12out")
+					if err != nil {
+						continue
+					}
+					rerr := en.f(tmp)
+					tmp.Close()
+					got, _ := os.ReadFile(tmp.Name())
+					ctx.Obs("renders_into_files", 1)
+					if rerr != nil || string(got) != O {
+						os.Remove(tmp.Name())
+						return fw.Result{Verdict: fw.Violated, Key: "file-output-differs", Case: cd,
+							Msg: fmt.Sprintf("%s into a fresh file: err %v, file holds %d bytes, the output has %d", en.name, rerr, len(got), len(O))}
+					}
+					closed, _ := os.OpenFile(tmp.Name(), os.O_WRONLY, 0)
+					closed.Close()
+					rerr = en.f(closed)
+					os.Remove(tmp.Name())
+					if rerr == nil {
+						return fw.Result{Verdict: fw.Violated, Key: "nil-on-failed-write:closed-file", Case: cd,
+							Msg: fmt.Sprintf("%s into a closed file returned nil for an output of %d bytes", en.name, len(O))}
+					}
+					// and one injected fault through this entry point
+					k := ctx.Rng.Intn(len(rec.writes))
+					fwr := &faultWriter{failAt: k, capacity: -1}
+					if rerr := en.f(fwr); rerr == nil || !strings.HasPrefix(O, string(fwr.accepted)) {
+						cd.Got = string(fwr.accepted)
+						return fw.Result{Verdict: fw.Violated, Key: "nil-on-failed-write:" + en.name, Case: cd,
+							Msg: fmt.Sprintf("%s with the write call %d failing: err %v, accepted %d bytes (prefix of the output: %v)", en.name, k, rerr, len(fwr.accepted), strings.HasPrefix(O, string(fwr.accepted)))}
+					}
+				}
+			}
 			if i%200 == 0 {
 				ctx.Sample(map[string]interface{}{"files": files, "data": cd.Data, "write_calls": len(rec.writes), "output_bytes": len(O)})
 			}
@@ -233,6 +293,9 @@ func init() {
 			}
 			if !cells["msg-at-end-of-file"] {
 				why = append(why, "no message at the end of a file")
+			}
+			if obs["renders_into_dev_full"] == 0 || obs["renders_into_files"] == 0 {
+				why = append(why, "no render into a real file (healthy, closed, /dev/full)")
 			}
 			if obs["faults_injected"] == 0 {
 				why = append(why, "no fault injected")
